@@ -877,3 +877,213 @@ func TestVerifC18_pb_history(t *testing.T) {
 	r.RequireCounter("sign_after_dirty_hash", 64)
 	r.RequireCounter("verify_bad", 3*64)
 }
+
+// ---------------------------------------------------------------------------------------------
+
+// TestVerifC18_pb_lengths: length alphabet for metadata and message (field-width boundaries of the 4-byte length
+// prefix of msg_prime = "msg" || I2OSP(len(info),4) || info || msg), and separation of metadata values that differ
+// only beyond byte 65535, only in length, or only in where the metadata/message boundary lies. The signed input and
+// the derived exponent are rebuilt by verifref/pss (FrameMessage, DeriveExponent); crypto/rsa decides validity.
+func TestVerifC18_pb_lengths(t *testing.T) {
+	r := verifmc.Start(t, "C18", "pb_lengths")
+	defer r.Finish()
+	vs := &c18Sink{}
+	defer vs.Flush(r)
+	mdLens := []int{0, 1, 8, 255, 256, 257, 65535, 65536, 65537, 70000, 131072}
+	msgLens := []int{0, 1, 255, 256, 65536}
+	r.Rule("safe-prime keys (quick: key 0) x metadata lengths {0,1,8,255,256,257,65535,65536,65537,70000,131072} x message lengths {0,1,255,256,65536} (bytes of verifmc.Msg, so shorter " +
+		"values are prefixes of longer ones), FixedBlind(salt 02^48, blind shakeA)+BlindSign+Finalize: signature accepted by the library, by the crypto/rsa oracle on the independently framed input " +
+		"under the independently derived exponent (byte equality with the reference signature is counted, not demanded); plus metadata pairs that differ only in a byte beyond offset 65535, only in length (m vs m||00), or only " +
+		"in the metadata/message boundary: Signer.BlindSign on a fixed unit must differ (different derived keys) and the signature for one must be refused for the other by library and oracle alike; " +
+		"non-trivial = distinct (key, metadata length, message length) / (key, pair)")
+	r.Set("metadata_lengths", mdLens)
+	r.Set("message_lengths", msgLens)
+	keys := c18pKeys(t, r)
+	if !r.Thorough() {
+		keys = keys[:1]
+	}
+	r.Set("keys", c18pNames(keys))
+	salt := c18Rep(0x02, 48)
+	type job struct {
+		k      *c18pKey
+		ml, dl int
+	}
+	var jobs []job
+	for _, k := range keys {
+		for _, dl := range mdLens {
+			for _, ml := range msgLens {
+				jobs = append(jobs, job{k, ml, dl})
+			}
+		}
+	}
+	verifmc.ParallelFor(len(jobs), func(ji int) {
+		j := jobs[ji]
+		k := j.k
+		id := fmt.Sprintf("%s/mdlen=%d/msglen=%d", k.name, j.dl, j.ml)
+		if !r.Want(id) || r.Expired() {
+			return
+		}
+		msg, md := verifmc.Msg(j.ml), verifmc.Msg(j.dl)
+		cls := "metadata below 65536 bytes"
+		if j.dl >= 65536 {
+			cls = "metadata of 65536 bytes or more"
+		}
+		vio := func(entry, class, what string) {
+			vs.Violation(fmt.Sprintf("C18|%s|%s|%s", entry, class, cls), id, id+": "+what, map[string]interface{}{"key": k.name, "metadata": fmt.Sprintf("verifmc.Msg(%d)", j.dl), "msg": fmt.Sprintf("verifmc.Msg(%d)", j.ml), "salt": "02^48", "blind": "shakeA"})
+		}
+		var f c18pFlow
+		if p, what := verifmc.Try(func() { f = c18pRun(k, msg, md, salt, c18pBlinds(k, false)[2].r, false) }); p {
+			vio("partiallyblindrsa.protocol", "panic:"+verifmc.PanicClass(what), what)
+			return
+		}
+		r.Eval(1)
+		if f.stage != "" {
+			vio("partiallyblindrsa."+f.stage, "honest flow fails", fmt.Sprintf("%s returned %v", f.stage, f.err))
+			return
+		}
+		r.Distinct(id)
+		r.Count("flows_completed", 1)
+		if j.dl >= 65536 {
+			r.Count("flows_with_metadata_ge_65536", 1)
+		}
+		if err := c18pVerify(k, msg, md, f.sig); err != nil {
+			vio("partiallyblindrsa.Verifier.Verify", "honest signature refused", err.Error())
+		}
+		if !k.oracle(msg, md, f.sig) {
+			vio("partiallyblindrsa.VerifierState.Finalize", "signature not valid RSASSA-PSS of \"msg\"||len32(metadata)||metadata||msg under the derived key (crypto/rsa)", "sig="+verifmc.Hex(f.sig))
+		} else {
+			r.Count("accepted_by_crypto/rsa_oracle", 1)
+		}
+		em, _ := pss.Encode(c18H, pss.Sum(c18H, pss.FrameMessage(msg, md)), k.rk.EmBits(), salt)
+		if bytes.Equal(f.sig, k.derived(md).SignEM(em)) {
+			r.Count("sig_equals_reference_signature", 1) // informational: the statement demands validity, not the use of the supplied salt
+		}
+		if ji%11 == 0 {
+			r.Sample(map[string]string{"case": id, "sig": verifmc.Hex(f.sig)})
+		}
+	})
+	// separation pairs
+	type pair struct {
+		name       string
+		mdA, mdB   []byte
+		msgA, msgB []byte
+	}
+	big70 := verifmc.Msg(70000)
+	x := []byte{0x5a, 0x00, 0x01}
+	base := verifmc.Msg(300)
+	pairs := []pair{
+		{name: "byte 65536 flipped", mdA: big70, mdB: verifmc.Flip(big70, 65536*8)},
+		{name: "last byte (69999) flipped", mdA: big70, mdB: verifmc.Flip(big70, 69999*8+7)},
+		{name: "byte 65535 flipped", mdA: big70, mdB: verifmc.Flip(big70, 65535*8)},
+	}
+	for _, n := range []int{0, 1, 255, 65535, 65536} {
+		m := verifmc.Msg(n)
+		pairs = append(pairs, pair{name: fmt.Sprintf("length only: Msg(%d) vs Msg(%d)||00", n, n), mdA: m, mdB: append(append([]byte{}, m...), 0)})
+	}
+	pairs = append(pairs,
+		pair{name: "length only: Msg(65536) vs Msg(131072)[:65537]", mdA: verifmc.Msg(65536), mdB: verifmc.Msg(65537)},
+		pair{name: "length only: 65536 zero bytes vs empty", mdA: make([]byte, 65536), mdB: []byte{}},
+		pair{name: "length only: 65537 zero bytes vs 1 zero byte", mdA: make([]byte, 65537), mdB: []byte{0}})
+	for _, n := range []int{0, 300, 65535, 65536} {
+		m := verifmc.Msg(n)
+		pairs = append(pairs, pair{name: fmt.Sprintf("boundary: (md=Msg(%d)||x, msg) vs (md=Msg(%d), x||msg)", n, n),
+			mdA: append(append([]byte{}, m...), x...), msgA: base, mdB: m, msgB: append(append([]byte{}, x...), base...)})
+	}
+	type pjob struct {
+		k *c18pKey
+		p pair
+	}
+	var pjobs []pjob
+	for _, k := range keys {
+		for _, p := range pairs {
+			pjobs = append(pjobs, pjob{k, p})
+		}
+	}
+	verifmc.ParallelFor(len(pjobs), func(pi int) {
+		k, p := pjobs[pi].k, pjobs[pi].p
+		id := fmt.Sprintf("%s/pair/%s", k.name, p.name)
+		if !r.Want(id) || r.Expired() {
+			return
+		}
+		if p.msgA == nil {
+			p.msgA, p.msgB = base, base
+		}
+		vio := func(entry, class, what string) {
+			vs.Violation(fmt.Sprintf("C18|%s|%s", entry, class), id, id+": "+what, map[string]string{"key": k.name, "pair": p.name})
+		}
+		r.Eval(1)
+		r.Distinct(id)
+		blind := c18pBlinds(k, false)[2].r
+		var fa, fb c18pFlow
+		if pn, what := verifmc.Try(func() {
+			fa = c18pRun(k, p.msgA, p.mdA, salt, blind, false)
+			fb = c18pRun(k, p.msgB, p.mdB, salt, blind, false)
+		}); pn {
+			vio("partiallyblindrsa.protocol", "panic:"+verifmc.PanicClass(what), what)
+			return
+		}
+		if fa.stage != "" || fb.stage != "" {
+			vio("partiallyblindrsa.protocol", "honest flow fails", fmt.Sprintf("A: %s %v; B: %s %v", fa.stage, fa.err, fb.stage, fb.err))
+			return
+		}
+		for _, y := range []struct {
+			side     string
+			msg, md  []byte
+			sig      []byte
+			omsg, om []byte
+		}{{"A", p.msgA, p.mdA, fa.sig, p.msgB, p.mdB}, {"B", p.msgB, p.mdB, fb.sig, p.msgA, p.mdA}} {
+			if !k.oracle(y.msg, y.md, y.sig) {
+				vio("partiallyblindrsa.VerifierState.Finalize", "signature not valid RSASSA-PSS of \"msg\"||len32(metadata)||metadata||msg under the derived key (crypto/rsa)|pair", "side "+y.side)
+			}
+			lib := c18pVerify(k, y.omsg, y.om, y.sig) == nil
+			orc := k.oracle(y.omsg, y.om, y.sig)
+			if orc {
+				t.Fatalf("%s: the reference oracle accepts the signature of side %s for the other (message, metadata)", id, y.side)
+			}
+			if lib {
+				vio("partiallyblindrsa.Verifier.Verify", "signature accepted for another (message, metadata)", "signature of side "+y.side+" verifies for the other side")
+			} else {
+				r.Count("cross_verification_refused", 1)
+			}
+		}
+		if bytes.Equal(fa.sig, fb.sig) {
+			vio("partiallyblindrsa.protocol", "two different (message, metadata) pairs give the same signature", "sig="+verifmc.Hex(fa.sig))
+		}
+		if !bytes.Equal(p.mdA, p.mdB) {
+			// different metadata => different derived keys, observed through the signer on a fixed unit
+			signer, err := pb.NewSigner(k.sk, c18H)
+			if err != nil {
+				vio("partiallyblindrsa.NewSigner", "refuses a safe-prime key", err.Error())
+				return
+			}
+			u := pss.I2OSP(new(big.Int).SetBytes(verifmc.Shake("c18-plen-unit"+k.name, k.rk.K()-1)), k.rk.K())
+			sa, ea := signer.BlindSign(u, p.mdA)
+			sb, eb := signer.BlindSign(u, p.mdB)
+			if ea != nil || eb != nil {
+				vio("partiallyblindrsa.Signer.BlindSign", "refuses an input below the modulus", fmt.Sprint(ea, eb))
+				return
+			}
+			if k.derived(p.mdA).E.Cmp(k.derived(p.mdB).E) == 0 {
+				t.Fatalf("%s: reference derives the same exponent for both metadata", id)
+			}
+			if bytes.Equal(sa, sb) {
+				vio("partiallyblindrsa.Signer.BlindSign", "different metadata give the same derived key", "BlindSign(unit) identical for both metadata")
+			} else {
+				r.Count("derived_keys_differ", 1)
+			}
+			for _, z := range []struct {
+				s  []byte
+				md []byte
+			}{{sa, p.mdA}, {sb, p.mdB}} {
+				m, ok := k.derived(z.md).RSAVP1(new(big.Int).SetBytes(z.s))
+				if !ok || m.Cmp(new(big.Int).SetBytes(u)) != 0 {
+					vio("partiallyblindrsa.Signer.BlindSign", "result is not the e'-th root of the input|pair", "metadata length "+fmt.Sprint(len(z.md)))
+				}
+			}
+		}
+	})
+	r.RequireCounter("flows_completed", int64(len(jobs)))
+	r.RequireCounter("flows_with_metadata_ge_65536", int64(len(keys)*4*5))
+	r.RequireCounter("cross_verification_refused", int64(len(pjobs)*2))
+	r.RequireCounter("derived_keys_differ", int64(len(pjobs)))
+}
